@@ -94,6 +94,14 @@ class World:
         UrwidImageCanvas._ti_disguise_state = 0
         self.buf = io.StringIO()
         self.screen = UrwidImageScreen(_devnull_file(), self.buf)
+        # clear_images(now=True) writes straight to the tty: captured in the same stream, in order
+        import term_image.widget._urwid as _u
+
+        if not hasattr(_u, "write_tty"):
+            raise MachineryError("seam term_image.widget._urwid.write_tty is missing")
+        _u.write_tty = lambda data: self.buf.write(data.decode())
+        # user-defined subclasses of the widget class (the allocator is shared by all of them)
+        self.classes = _widget_classes(UrwidImage)
         if not hasattr(self.screen, "_ti_image_cviews"):
             raise MachineryError("seam UrwidImageScreen._ti_image_cviews is missing")
         self.widgets: dict[int, object] = {}  # wid -> widget (the only strong reference we hold)
@@ -223,20 +231,20 @@ class World:
             "next": nm,
         }
 
-    def _event(self, op, *, lay=None, exc="", toks=None, full=None, w=0, style="") -> dict:
+    def _event(self, op, *, lay=None, exc="", toks=None, full=None, w=0, style="", now=False) -> dict:
         gc.collect()
         for wid, ref in self.refs.items():
             if ref() is None:
                 self.wid_of = {k: v for k, v in self.wid_of.items() if v != wid}
         ev = {"op": op, "lay": lay or {"k": "txt", "ch": 32}, "exc": exc,
               "toks": toks if toks is not None else self._take(), "full": full or [],
-              "w": w, "style": style}
+              "w": w, "style": style, "now": bool(now)}
         ev.update(self._observe())
         self.events.append(ev)
         return ev
 
     # --------------------------------------------------------------- operations
-    def new(self, style: str, nw: int, nh: int) -> int:
+    def new(self, style: str, nw: int, nh: int, sub: int = 0) -> int:
         from PIL import Image
         from term_image.exceptions import UrwidImageError
         from term_image.image import BlockImage, ITerm2Image, KittyImage
@@ -248,7 +256,7 @@ class World:
         im.putdata([(rng.randrange(256), rng.randrange(256), rng.randrange(256)) for _ in range(pw * ph)])
         image = cls(im)
         try:
-            widget = self.UrwidImage(image, "" if style == "block" else "+L")
+            widget = self.classes[sub](image, "" if style == "block" else "+L")
         except UrwidImageError as e:
             self._event("new", exc=type(e).__name__, style=style)
             return 0
@@ -284,6 +292,12 @@ class World:
                 raise MachineryError("two image lines share a payload: cannot tell strips apart")
             self.payloads[pay] = (wid, strip)
         self.urwid.CanvasCache.invalidate(widget)
+
+    def clear_images(self, wid: int, now: bool) -> None:
+        """Direct user call of screen.clear_images([widget], now=now)."""
+        args = (self.widgets[wid],) if wid else ()
+        exc = self._call(lambda: self.screen.clear_images(*args, now=now))
+        self._event("climg", exc=exc, w=wid, now=now)
 
     def drop(self, wid: int) -> None:
         del self.widgets[wid]
@@ -393,3 +407,15 @@ class World:
     def trace(self) -> dict:
         return {"ident": self.ident, "cols": self.cols, "rows": self.rows, "bits": self.bits,
                 "next0": 1, "gfx": self.gfx, "events": self.events}
+
+
+_CLASSES: dict = {}
+
+
+def _widget_classes(base):
+    """UrwidImage, a user subclass of it and a subclass of that subclass (created once per base)."""
+    if base not in _CLASSES:
+        sub1 = type("MyImage", (base,), {"__doc__": "an application-defined image widget"})
+        sub2 = type("MyThumbnail", (sub1,), {})
+        _CLASSES[base] = (base, sub1, sub2)
+    return _CLASSES[base]
